@@ -13,7 +13,7 @@ import (
 )
 
 func init() {
-	register("C14", "Variable coercion: (R1) reflect typestate — every reflect.Value method that panics on the zero Value (Type, Interface, Len, Index, MapKeys, MapIndex, SetMapIndex, IsNil, Elem) or on the wrong kind (Len, Index, Map*, IsNil, Elem) is preceded on every path by a validity / kind examination that excludes the panic (path-sensitive facts on IsValid(), Kind()==K, IsNil(); values from Elem() of a possibly nil pointer/interface and from MapIndex are possibly invalid; requirements on parameters are checked at call sites); (R2) nil safety of the coercer under the precondition that the operation passed validation, and its two panics are the 'missing definition' closure case and the default of a kind switch that covers exactly the input kinds; (R3) null is accepted only for nullable types: every success return of the coercer with a possibly invalid value, and every nil stored in the result, lies under NonNull == false; (R4) every value stored in the result map is nil (R3) or the coercer's result for that variable — defaults included; (R5) the success returns of the list case and of the input-object case cannot skip the element loop, the unknown-field loop or the per-field loop; (R6) recursion passes the child's own type (typ.Elem / fieldDef.Type); (R7) the per-field loop of the input-object case moves on without coercing a declared field only on paths where the field is absent from the input (MapIndex result known invalid) or its declared type is known nullable. (R9) index and slice expressions reachable from VariableValues are in bounds (engine of C02.R6); (R10) every path through one iteration of the loop over the variable definitions that ends with the variable supplied (an explicit null included) or defaulted has written result[name].", runC14)
+	register("C14", "Variable coercion: (R1) reflect typestate — every reflect.Value method that panics on the zero Value (Type, Interface, Len, Index, MapKeys, MapIndex, SetMapIndex, IsNil, Elem) or on the wrong kind (Len, Index, Map*, IsNil, Elem) is preceded on every path by a validity / kind examination that excludes the panic (path-sensitive facts on IsValid(), Kind()==K, IsNil(); values from Elem() of a possibly nil pointer/interface and from MapIndex are possibly invalid; requirements on parameters are checked at call sites); (R2) nil safety of the coercer under the precondition that the operation passed validation, and its two panics are the 'missing definition' closure case and the default of a kind switch that covers exactly the input kinds; (R3) null is accepted only for nullable types: every success return of the coercer with a possibly invalid value, and every nil stored in the result, lies under NonNull == false; (R4) every value stored in the result map is nil (R3) or the coercer's result for that variable — defaults included; (R5) the success returns of the list case and of the input-object case cannot skip the element loop, the unknown-field loop or the per-field loop; (R6) recursion passes the child's own type (typ.Elem / fieldDef.Type); (R7) the per-field loop of the input-object case moves on without coercing a declared field only on paths where the field is absent from the input (MapIndex result known invalid) or its declared type is known nullable. (R9) index and slice expressions reachable from VariableValues are in bounds (engine of C02.R6); (R10) every path through one iteration of the loop over the variable definitions that ends with the variable supplied (an explicit null included) or defaulted has written result[name]. (R2 also) no single-result type assertion on a reflect Interface() value.", runC14)
 }
 
 // reflect method tables
